@@ -132,5 +132,6 @@ package bellatrix
 //@     invariant ctx_t > old(ctx_t) ==> !ctx_cancelled(ctx, old(ctx_t))
 //@   assigns ghost(n_eng_notify), ghost(n_set_exec_header)
 //@   assigns ghost(n_set_mix), ghost(last_set_mix_epoch), ghost(last_set_mix)
+//@   assigns ghost(n_set_lhdr), ghost(set_lhdr)
 
 // END C18 generated
